@@ -18,7 +18,9 @@
    then c2, ..., then M's own, which is the order expand_connectors sees.
    All connectors have the same class; its variables are given by `layout`, a
    sequence of kinds  "p" potential, "f" flow, "i"/"o" input/output (causal
-   potentials), "c" parameter (no connection equation).
+   potentials), "c" parameter (no connection equation); the layout <<"s">> is
+   the scalar signal connector  "connector Pin = Real"  (the port itself is the
+   only, potential, variable; the code takes the FoundElementaryClassError path).
 
    OPERATIONAL SIDE (what the code does, tree.py:1003-1163).  One action per
    step of the loop:
@@ -94,7 +96,7 @@ PartEnv == atoi(IOEnv.C09_PART)
 NPartsEnv == atoi(IOEnv.C09_NPARTS)
 LayoutsPF == {<<"p", "f">>}
 LayoutsRich == {<<"f", "p">>, <<"p", "p", "f">>, <<"f", "p", "f">>, <<"p", "f", "f", "p">>,
-                <<"i", "f", "o">>, <<"c", "p", "f">>, <<"p">>, <<"f">>, <<"o", "c", "i">>}
+                <<"i", "f", "o">>, <<"c", "p", "f">>, <<"p">>, <<"f">>, <<"o", "c", "i">>, <<"s">>}
 
 -----------------------------------------------------------------------------
 (* helpers *)
@@ -132,7 +134,7 @@ Used == UNION {{prog[n].l, prog[n].r} : n \in DOMAIN prog}
 CanonOK(U, x) == EarlierInClass[x] \subseteq U
 
 VarIdx == DOMAIN layout
-IsPot(j) == layout[j] \in {"p", "i", "o"}
+IsPot(j) == layout[j] \in {"p", "i", "o", "s"}
 IsFlow(j) == layout[j] = "f"
 
 -----------------------------------------------------------------------------
@@ -291,7 +293,9 @@ Rank(rows, cols) ==
 RankP(rows) == Rank(rows, Ports)
 
 (* the two readings ask for different solution spaces (the extra z = 0 rows are not already implied) *)
-ReadingsDiffer(P) == GapCandidates(P) # {} /\ RankP(DFlow(P, TRUE)) # RankP(DFlow(P, FALSE))
+ReadingsDiffer(P) == /\ \E j \in VarIdx : IsFlow(j)
+                     /\ GapCandidates(P) # {}
+                     /\ RankP(DFlow(P, TRUE)) # RankP(DFlow(P, FALSE))
 
 TermsOf(f, j) == LET s == SelectSeq(PortSeq, LAMBDA p : f[p] # 0) IN [n \in DOMAIN s |-> <<s[n], j, f[s[n]]>>]
 ExpectRows(strict) == UNION {{TermsOf(f, j) : f \in DRowsWith(prog, j, strict)} : j \in VarIdx}
